@@ -115,6 +115,12 @@ def build_pipeline(case, source):
       b = b.add_slice('a')
     if p.get('inplace_agg'):
       b = b.add_aggregate(fn=rolling_stats.Counter().as_agg_fn(), input_keys='y', output_keys='cy')
+  if p.get('third_stage'):
+    # three named stages: on restore every stage must be wired to the stage just before it
+    c = T.new(name='C').assign('z', fn=col_add1, input_keys='y')
+    if p['third_stage'] == 'agg':
+      c = c.aggregate(targets.SumAgg(), input_keys='z', output_keys='sc')
+    return a.chain(b).chain(c)
   return a.chain(b)
 
 
@@ -261,6 +267,8 @@ def _pipeline_case(draw, maxops, threads):
           'rebatch': draw(st.sampled_from([0, 0, 0, 1, 2, 3]))}
   if shape == 'chained' and not (pipe['agg_a'] or pipe['agg_b']):
     pipe['agg_b'] = True
+  if shape == 'chained':
+    pipe['third_stage'] = draw(st.sampled_from([None, None, 'plain', 'agg']))
   return {'source': _source(draw, nb), 'data': data, 'pipeline': pipe, 'num_threads': draw(st.sampled_from(threads)),
           'ops': _ops(draw, maxops)}
 
